@@ -58,8 +58,16 @@ def parse_fields(buf, pos, strict=True):
         pos += size
 
 
+# ri_whfast.p_jh holds Jacobi/heliocentric coordinates: positions, velocities, accelerations and masses.
+# Its ax,ay,az (within-step scratch, unassigned in non-Jacobi coordinates) and r / last_collision / hash members are never assigned by the integrator (uninitialised heap bytes end up in
+# the file); they are not quantities of the simulation.
+PJH_MASK = PARTICLE_MASK + [(48, 24), (80, 8), (88, 8), (104, 4)]
+
+
 def mask_field(typ, payload):
-    if typ in (T_PARTICLES, T_WHFAST_PJH, T_WH512_PJH0):
+    if typ == T_WHFAST_PJH:
+        return _mask_records(payload, PARTICLE_SIZE, PJH_MASK)
+    if typ in (T_PARTICLES, T_WH512_PJH0):
         return _mask_records(payload, PARTICLE_SIZE, PARTICLE_MASK)
     if typ == T_VARCONFIG:
         return _mask_records(payload, VARCONFIG_SIZE, VARCONFIG_MASK)
